@@ -12,6 +12,10 @@ PARSER_NOTE = ("Trusted: the spec->public-API builder, the intended-parse fold /
                "argv is rendered only where the documented rules are unambiguous (DESIGN appendix A). Nothing is claimed for shapes the generators do not produce.")
 def P(tech, text, ref, note=PARSER_NOTE):
     return ("parser-monitors", tech, text, note, ref)
+DAG_NOTE = ("Trusted: the controlled-schedule harness (task closures that park until released), the build-tag-guarded idle hook, the Go race detector. "
+            "Completion orders are controlled, Go-scheduler interleavings inside one scheduler iteration are only sampled; wall-clock watchdogs end as inconclusive, never as verdicts.")
+def D(tech, text, ref):
+    return ("dag-monitors", tech, text, DAG_NOTE, ref)
 CHECKS = {
  "C01": P("runtime monitor: strconv/identity conversion oracle over values read back after real Parse executions of hostile value texts",
           "Each case executes the real Parse on a hostile value text (arbitrary bytes, dashes, '=', whitespace, newlines, boundary/malformed numerals) in both spellings, all scalar kinds and modes, inside random surrounding argv; the monitor compares Value/pointer/Var/Called with Go's decimal conversion. Held on the executions counted in evidence.",
@@ -46,6 +50,18 @@ CHECKS = {
  "C11": P("runtime monitor: required-set and help-bypass rules over CommandFn log, errors.Is and Writer on real Parse+Dispatch executions",
           "Every subset of the (<=4) required options visible at the target is supplied (name/alias/abbreviation/env) x six help forms; help text compared byte-for-byte with Help() of an identically built program parked on the level.",
           "5 (C11)"),
+ "C13": D("runtime monitoring under the Go race detector: offline precedence checker over the sequence-numbered task enter/exit event log of real Graph.Run executions with controller-chosen completion orders; plain dependency cells decide visibility",
+          "Small scope exhaustive (all DAGs n<=3 quick / n<=4 thorough x outcome scripts x 4 modes x every completion order the controller can reach), random larger DAGs, uncontrolled and eager stress runs; every run is the real scheduler, the monitor decides precedence/attempt rules from the log and the race detector decides the visibility clause.",
+          "6 (C13)"),
+ "C14": D("runtime monitoring under the Go race detector: outcome rules over event log, returned *dag.Errors (errors.As/Is per entry) and recorded Logger lines, controller-placed cancellation points",
+          "Outcome assignments x completion orders x cancel points (before Run, after every k-th release, from inside a task) on all small DAGs and random larger ones; the monitor checks who was started, what Run returned and what was reported.",
+          "6 (C14)"),
+ "C15": D("runtime monitoring under the Go race detector: live-task counter / interval checker over the event log, contiguity checker over bytes received by an unsynchronized writer, plain counters raced on purpose",
+          "Saturating workloads where the controller holds tasks open so that the bound is pressed (runs with peak==limit counted), serial mode with an unsynchronized shared counter, 2-4 concurrently running graphs over the same Task objects, buffered output with several chunks per attempt.",
+          "6 (C15)"),
+ "C16": D("runtime monitoring under the Go race detector: scheduler idle-tick hook invariant (fixpoint = deadlock, logical time), bounded-progress watchdog, work-conservation check at fresh quiescent points, cycle/definition-error rule, topological check of DepthFirstSort",
+          "All public-API construction histories up to length 3 (quick) / 4 (thorough) over 3 tasks plus random longer ones (re-adds, duplicate/self edges, cycles, nil tasks) are built and run to completion or to a verdict; random DAGs for work conservation.",
+          "6 (C16)"),
  "C12": P("runtime monitor: CLI > env > default precedence table over values read back after real definitions (env set) and Parse executions",
           "The kind x env-class x CLI-class x default x pointer/Var grid is enumerated completely in quick, hostile texts added; value/Called/CalledAs asserted except the two cases the statement leaves open (listed in DESIGN N3).",
           "5 (C12)"),
